@@ -462,6 +462,7 @@ def history_case(case, rec):
     _, tb, sb = mk(R, C)
     border = Border(2.0, RGB(1, 2, 3), "solid")
     hot = [(rng.randrange(R), rng.randrange(C)) for _ in range(3)]  # positions asked for again and again
+    hot_marks = [(rng.random() < .6, rng.random() < .6) for _ in hot]
     log = []
     mR, mC = R, C  # the shape the table must have: kept by the check from the operations made, not read from the table
     emptied = rng.random() < .15
@@ -520,6 +521,8 @@ def history_case(case, rec):
             method = rng.choice(["cell", "cell", "write", "style", "format", "border"])
         # the A1 twin spells the position with any of the four '$' forms (a repeated position keeps turning up in all of them)
         ra, ca = rng.random() < .3, rng.random() < .3
+        if (r, c) in hot and rng.random() < .6:
+            ra, ca = hot_marks[hot.index((r, c))]  # the same spelling of the same position, again and again
         name = a1.cell_name(r, c, ra, ca)
         if ra or ca:
             rec.count("history_calls_with_marked_references")
